@@ -189,7 +189,13 @@ fn ref_parse_mo(s: &str) -> Option<Month> {
     (0..12).find(|&i| l == MO_LONG[i][..3].to_ascii_lowercase() || l == MO_LONG[i].to_ascii_lowercase()).map(|i| MO[i])
 }
 
+/// every string is judged twice in a row: the verdict on a text must not depend on having seen it (or a look-alike)
+/// just before
 fn parse_one(acc: &mut Acc, s: &str) {
+    parse_once(acc, s);
+    parse_once(acc, s);
+}
+fn parse_once(acc: &mut Acc, s: &str) {
     let e = ref_parse_wd(s);
     match guard(|| s.parse::<Weekday>().ok()) {
         Ok(a) => {
